@@ -69,6 +69,10 @@ type c01bCase struct {
 	TrustOtherType bool        `json:"trustOtherType,omitempty"` // trust entry exists but for another credential type
 	AllowUntrusted bool        `json:"allowUntrusted"`
 	CtrlDeactAt    int         `json:"ctrlDeactAt,omitempty"` // != 0: the controller document is deactivated at this offset (seconds from T0)
+	// storage fault of the revocation store (c01RevStoreFaults; "" = healthy): the by-id look-up fails from probe
+	// StoreFaultFrom on (the probes before it see a healthy store)
+	StoreFault     string `json:"storeFault,omitempty"`
+	StoreFaultFrom int    `json:"storeFaultFrom,omitempty"`
 	Probes         []c01bProbe `json:"probes"`
 }
 
@@ -85,6 +89,15 @@ func c01bGen(t *rapid.T) c01bCase {
 		Trusted:        rapid.IntRange(0, 9).Draw(t, "trusted") > 1,
 		TrustOtherType: rapid.IntRange(0, 6).Draw(t, "trustOther") == 0,
 		AllowUntrusted: rapid.IntRange(0, 9).Draw(t, "allowUntrusted") > 6,
+	}
+	if rapid.IntRange(0, 3).Draw(t, "storeFault") == 0 {
+		// the revocation store fails while the credential is verified; half of these credentials are revoked
+		c.StoreFault = rapid.SampledFrom(c01RevStoreFaults).Draw(t, "storeFaultKind")
+		c.StoreFaultFrom = rapid.SampledFrom([]int{0, 0, 0, 1, 2, 4}).Draw(t, "storeFaultFrom")
+		if rapid.Bool().Draw(t, "storeFaultRevoked") {
+			// steered: everything else in order (so that only the unreadable store stands between the revoked credential and "valid")
+			c.Revoked, c.ForeignKey, c.Trusted, c.TrustOtherType = true, false, true, false
+		}
 	}
 	if c.ForeignKey {
 		// nothing else should reject such a credential: the signer's identity is what is being judged
@@ -264,7 +277,17 @@ func c01bRun(x *h.Ctx, c c01bCase) {
 		spec.Subject = []any{map[string]any{"id": subjectDID, "organization": map[string]any{"name": "n", "city": "c"}}}
 	}
 	cred := f.signCredential(x, spec)
-	v, tc := f.newVerifier(x)
+	var faultStore *c01FaultStore
+	for _, k := range c01RevStoreFaults {
+		if k == c.StoreFault {
+			faultStore = f.newFaultStore(x, k)
+		}
+	}
+	revStore := f.revStore
+	if faultStore != nil {
+		revStore = faultStore
+	}
+	v, tc := f.newVerifierOn(x, revStore)
 	if c.Trusted {
 		ty := spec.Type
 		if c.TrustOtherType {
@@ -274,7 +297,7 @@ func c01bRun(x *h.Ctx, c c01bCase) {
 	}
 	trusted := c.Trusted && !c.TrustOtherType
 	if c.Revoked {
-		x.NoErr(f.revStore.StoreRevocation(credential.Revocation{Issuer: cred.Issuer, Subject: *cred.ID, Date: issued.Add(time.Second)}), "StoreRevocation")
+		x.NoErr(revStore.StoreRevocation(credential.Revocation{Issuer: cred.Issuer, Subject: *cred.ID, Date: issued.Add(time.Second)}), "StoreRevocation")
 	}
 
 	// reference
@@ -296,10 +319,22 @@ func c01bRun(x *h.Ctx, c c01bCase) {
 		mustAccept
 		either
 	)
+	var referenceRest func(at *time.Time) (verdict, string)
 	reference := func(at *time.Time) (verdict, string) {
 		if c.Revoked {
+			// revoked => never valid, whatever the store does (an error is a rejection as well)
+			if faultStore != nil && faultStore.active {
+				if rest, _ := referenceRest(at); rest == mustAccept {
+					x.Class("revoked+store-unreadable+otherwise-valid-probe")
+				}
+				return mustReject, "revoked-while-revocation-store-unreadable"
+			}
 			return mustReject, "revoked"
 		}
+		return referenceRest(at)
+	}
+	// everything but revocation
+	referenceRest = func(at *time.Time) (verdict, string) {
 		if c.ForeignKey {
 			return mustReject, "proof-by-key-of-another-did:" + c01bForeignName(c.Foreign)
 		}
@@ -444,7 +479,14 @@ func c01bRun(x *h.Ctx, c c01bCase) {
 	seenWhy := map[string]bool{}
 	for i, p := range c.Probes {
 		at := instants(p)
+		if faultStore != nil && i >= c.StoreFaultFrom {
+			faultStore.fail(x)
+		}
 		want, why := reference(at)
+		if faultStore != nil && faultStore.active && want == mustAccept {
+			// not revoked, but the node cannot know: an error is fine, no expectation
+			want, why = either, "revocation-store-unreadable"
+		}
 		err := v.Verify(cred, c.AllowUntrusted, true, at)
 		h.Count("C01", x.Unit, "probes", 1)
 		seenWhy[why] = true
@@ -466,6 +508,15 @@ func c01bRun(x *h.Ctx, c c01bCase) {
 		case want == mustAccept && err != nil:
 			x.Logf("probe %d (%s %d %+d = %s): rejected with %v; issued T0%+ds expires %v versions %+v key %d", i, p.Base, p.Idx, p.Delta, rel, err, c.IssueAt, expires, versions, key)
 			x.Violate("rejected:"+c01bErrClass(err)+":"+c.Format, "probe %d (validAt = %s): Verify rejects the credential, the reference accepts it", i, rel)
+		}
+	}
+	if faultStore != nil {
+		x.Class("rev-store-fault=" + faultStore.kind)
+		if faultStore.reads > 0 {
+			x.Class("rev-store-fault-hit-by-a-look-up")
+			if c.Revoked {
+				x.Class("rev-store-fault-hit-while-revoked")
+			}
 		}
 	}
 	var whys []string
